@@ -3,12 +3,18 @@
 proof          : coq/theories/Props/C18.v (model Model/DataSaver.v over Model/GenericLearner.v)
 correspondence : seeded histories on the real DataSaver over a real child whose calls are recorded
                  (Run/OracleChild.v) vs the model (vm_compute in Coq)
-search         : from-scratch twin oracle: the same history on the bare learner fed the picked values;
-                 extra_data keys/values; picker called exactly once per tell; save/load, pickle,
-                 _get_data/_set_data round trips
+search         : from-scratch twin oracle: the same history on the bare learner fed the picked values, in
+                 lock-step, every public observable compared after every operation (npoints, data,
+                 pending_points, loss(real) both ways, bounds & co., every public attribute read through
+                 the wrapper vs read on the wrapped learner); extra_data keys/values; picker called
+                 exactly once per tell; save / load / copy_from / _set_data INTO savers that already hold
+                 data (earlier checkpoint of the same run, another run), wrapped learners that held data
+                 before they were wrapped, data fed to the wrapped learner directly; pickle
 """
 from __future__ import annotations
 
+import copy
+import glob
 import json
 import math
 import operator
@@ -29,7 +35,8 @@ PREAMBLE = """From Coq Require Import ZArith PrimFloat List. Import ListNotation
 From AV Require Import Base.Prelude Base.FloatUtil Model.GenericLearner Model.DataSaver Run.OracleChild Run.DataSaverRun.
 Open Scope nat_scope."""
 
-KINDS = ["l1d", "lnd", "seq", "avg", "int"]
+KINDS = ["l1d", "lnd", "seq", "avg", "int", "l2d", "avg1d"]
+COPY_LIVE = False      # copy_from a saver that goes on living (shares extra_data on the code as it is)
 PICKERS = ["itemgetter", "lambda_dict", "identity"]
 
 
@@ -83,14 +90,17 @@ def safe_loss(l, real):
         return float("nan")
 
 
+def obs_loss(l, real=True):
+    """loss(real) as a comparable value: a learner whose loss() raises does so with and without the wrapper."""
+    try:
+        v = float(l.loss(real=real))
+        return "nan" if math.isnan(v) else v
+    except Exception as e:
+        return "raises " + type(e).__name__
+
+
 def feq(a, b):
     return a == b or (math.isnan(a) and math.isnan(b))
-
-
-def public_state(kind, l):
-    """What C18 observes of a learner (wrapped or bare)."""
-    return {"npoints": int(l.npoints), "pend": W.child_pending(kind, l), "data": W.child_data(kind, l),
-            "loss_r": safe_loss(l, True), "loss_e": safe_loss(l, False)}
 
 
 def dec_point(kind, child, enc):
@@ -101,27 +111,43 @@ def dec_point(kind, child, enc):
     if kind == "seq":
         i = int(enc[0])
         return (i, child.sequence[i])
+    if kind == "avg1d":
+        return (int(enc[0]), float(enc[1]))
     return tuple(float(c) for c in enc)
 
 
-def gen_history(rng, kind, maxlen):
+FREE_KINDS = ("l1d", "seq", "avg", "l2d", "avg1d")     # accept tells / tell_pending of points they never handed out
+RESTORE_HOWS = ["load", "load", "set_data", "copy_from"]
+
+
+def gen_history(rng, kind, maxlen, persist=True):
     h = []
     for _ in range(rng.randint(3, maxlen)):
         r = rng.random()
-        if r < 0.30:
+        if r < 0.27:
             h.append(("ask", rng.choice([1, 1, 2, 3, 5, 0]), rng.random() < 0.85))
-        elif r < 0.62:
+        elif r < 0.55:
             h.append(("tell", rng.choice(["outstanding", "outstanding", "outstanding", "unsolicited", "again"]), rng.random() < 0.7))
-        elif r < 0.70:
+        elif r < 0.61:
             h.append(("tell_pending",))
-        elif r < 0.74:
+        elif r < 0.64:
             h.append(("tell_pending_told",))
-        elif r < 0.82:
+        elif r < 0.71:
             h.append(("tell_many", rng.choice([0, 1, 2, 2, 3, 4, 5]), rng.choice(ITER_MODES), rng.choice(ITER_MODES)))
-        elif r < 0.92:
+        elif r < 0.78:
             h.append(("loss", rng.random() < 0.5))
-        else:
+        elif r < 0.83:
             h.append(("remove_unfinished",))
+        elif not persist:
+            h.append(("ask", 1, True))
+        elif r < 0.89:
+            h.append(("save",))
+        elif r < 0.95:
+            h.append(("restore",))
+        elif r < 0.98:
+            h.append(("inner_tell",))
+        else:
+            h.append(("inner_load",))
     return h
 
 
@@ -143,20 +169,49 @@ def one_shot(items, mode, other):
     return iter(list(items))
 
 
-def apply_op(kind, l, op, wrapped, picker_name):
+_SERIAL = [0]
+_WORK = [None]
+
+
+def work_dir():
+    d = _WORK[0] or "/var/tmp/c18_replay"
+    os.makedirs(d, exist_ok=True)
+    return d
+
+
+class Side:
+    """One side of a twin run (the DataSaver / the bare learner fed the picked values): where its
+    checkpoint files live, the other run it may copy from, how to make an empty sibling."""
+
+    def __init__(self, spec, wrapped, base):
+        self.spec, self.wrapped, self.base = spec, wrapped, base
+        self.donor = None                 # a live learner of the same side (the other run), if any
+
+    def path(self, slot):
+        return f"{self.base}_{'w' if self.wrapped else 't'}_{slot}.pickle"
+
+    def inner_path(self, slot):
+        return f"{self.base}_t_{slot}.pickle"
+
+    def fresh(self):
+        from adaptive import DataSaver
+        child = W.make_child(self.spec["kind"], self.spec.get("koff", 0), self.spec.get("size", 40))
+        return DataSaver(child, arg_picker=make_picker(self.spec["picker"])) if self.wrapped else child
+
+
+def apply_op(kind, l, op, wrapped, picker_name, side=None):
     """One concrete op on a learner; returns ("ask", pts, imps) / ("loss", v) / ("none",) / ("exc", type)."""
     try:
+        child = l.learner if wrapped else l
         if op[0] == "ask":
             pts, imps = l.ask(op[1], tell_pending=op[2])
             return ("ask", [W.enc_point(kind, p) for p in pts], [float(v) for v in imps], list(pts))
         if op[0] == "tell":
-            child = l.learner if wrapped else l
             p = dec_point(kind, child, op[1])
             r = make_result(picker_name, op[2], op[3])
             l.tell(p, r if wrapped else make_picker(picker_name)(r))
             return ("none",)
         if op[0] == "tell_many":
-            child = l.learner if wrapped else l
             xs = [dec_point(kind, child, it[0]) for it in op[1]]
             rs = [make_result(picker_name, it[1], it[2]) for it in op[1]]
             if wrapped:
@@ -167,34 +222,200 @@ def apply_op(kind, l, op, wrapped, picker_name):
                     l.tell(p, pk(r))
             return ("none",)
         if op[0] == "tell_pending":
-            child = l.learner if wrapped else l
             l.tell_pending(dec_point(kind, child, op[1]))
             return ("none",)
         if op[0] == "loss":
             return ("loss", float(l.loss(real=op[1])))
-        l.remove_unfinished()
-        return ("none",)
+        if op[0] == "remove_unfinished":
+            l.remove_unfinished()
+            return ("none",)
+        # --- persistence into a learner that may already hold data -------------------------------
+        if op[0] == "save":
+            l.save(side.path(op[1]))
+            return ("none",)
+        if op[0] == "restore":
+            how = op[2]
+            if how == "load":
+                l.load(side.path(op[1]))
+            elif how == "set_data":
+                from adaptive.utils import load as load_file
+                l._set_data(load_file(side.path(op[1])))
+            elif how == "copy_from":          # from a sibling that exists only for this purpose
+                tmp = side.fresh()
+                tmp.load(side.path(op[1]))
+                l.copy_from(tmp)
+            else:                             # "copy_live": from the other run, which goes on living
+                l.copy_from(side.donor)
+            return ("none",)
+        # --- data that reaches the wrapped learner without passing through the DataSaver ---------
+        if op[0] == "inner_tell":
+            child.tell(dec_point(kind, child, op[1]), op[2])
+            return ("none",)
+        if op[0] == "inner_load":             # a learner-level file (written by the bare twin)
+            child.load(side.inner_path(op[1]))
+            return ("none",)
+        if op[0] == "inner_tmap":
+            child.tell_many_at_point(float(op[1]), {int(sd): float(y) for sd, y in op[2]})
+            return ("none",)
+        raise AssertionError(f"unknown op {op!r}")
+    except AssertionError:
+        raise
     except Exception as e:        # compared between the twins
         return ("exc", type(e).__name__)
 
 
-def drive(spec, hist=None, rng=None, concrete=None, record=True, overwrites=True):
-    """Run DataSaver(child) on a history.  Returns dict(steps, rec, ds, picker, errors)."""
+def told_map(kind, learner):
+    """hashable point -> value, for every point the learner holds a value for (as told)."""
+    if kind == "avg1d":
+        return {(int(sd), float(x)): v for x, d in learner._data_samples.items() for sd, v in d.items()}
+    return {W.hashable(kind, q): v for q, v in learner.data.items()}
+
+
+# names a DataSaver answers itself; everything else the wrapped learner offers is reached by delegation
+OWN_NAMES = {"learner", "extra_data", "function", "arg_picker", "ask", "tell", "tell_many", "tell_pending", "loss",
+             "remove_unfinished", "new", "copy_from", "save", "load", "to_dataframe", "load_dataframe"}
+
+
+def _same_value(a, b):
+    if a is b:
+        return True
+    try:
+        if isinstance(a, np.ndarray) or isinstance(b, np.ndarray):
+            return bool(np.array_equal(np.asarray(a), np.asarray(b), equal_nan=True))
+        if isinstance(a, float) and isinstance(b, float) and math.isnan(a) and math.isnan(b):
+            return True
+        if type(a) is type(b) and type(a).__eq__ is object.__eq__:
+            return True                   # two fresh objects without a notion of equality: cannot be judged
+        return bool(a == b)
+    except Exception:
+        return True
+
+
+def _get(obj, name):
+    try:
+        return ("ok", getattr(obj, name))
+    except Exception as e:
+        return ("exc", type(e).__name__)
+
+
+def delegation_scan(ds):
+    """Every public attribute of the wrapped learner, read through the DataSaver and directly."""
+    inner, bad = ds.learner, []
+    for name in dir(inner):
+        if name.startswith("_") or name in OWN_NAMES:
+            continue
+        a, b = _get(inner, name), _get(ds, name)
+        if a[0] != b[0] or (a[0] == "exc" and a[1] != b[1]) or (a[0] == "ok" and not _same_value(a[1], b[1])):
+            bad.append(f"{name}: DataSaver -> {str(b[1])[:50]}, wrapped learner -> {str(a[1])[:50]}")
+    return bad
+
+
+EXTRA_ATTRS = {"l1d": ["bounds", "vdim"], "lnd": ["bounds", "ndim", "vdim"], "l2d": ["bounds", "vdim", "bounds_are_done"],
+               "seq": ["sequence"], "avg": ["mean", "std", "n_requested", "atol", "rtol", "min_npoints"],
+               "int": ["bounds", "igral", "err", "nr_points", "tol"],
+               "avg1d": ["bounds", "nsamples", "min_samples_per_point", "min_samples", "max_samples", "delta"]}
+
+
+def _norm(v):
+    if isinstance(v, np.ndarray):
+        return ("arr", v.shape, [repr(float(t)) for t in v.ravel()[:50]])
+    if isinstance(v, (float, np.floating)):
+        return repr(float(v))
+    if isinstance(v, (int, np.integer, bool)):
+        return int(v)
+    if isinstance(v, (list, tuple)):
+        return [_norm(t) for t in v]
+    if isinstance(v, (set, frozenset)):
+        return sorted(repr(_norm(t)) for t in v)
+    if isinstance(v, dict):
+        return sorted((repr(_norm(k)), repr(_norm(t))) for k, t in v.items())
+    return repr(type(v)) if v is not None else None
+
+
+def attr_view(kind, l):
+    """Further public observables (read through the wrapper when `l` is one), normalised for comparison."""
+    out = {}
+    for name in EXTRA_ATTRS[kind]:
+        g = _get(l, name)
+        out[name] = ("exc", g[1]) if g[0] == "exc" else _norm(g[1])
+    if kind == "avg1d":
+        out["samples"] = _norm({x: dict(d) for x, d in l._data_samples.items()})
+    if kind in ("seq", "int"):
+        g = _get(l, "done")
+        try:
+            out["done"] = bool(g[1]()) if g[0] == "ok" else g
+        except Exception as e:
+            out["done"] = type(e).__name__
+    return out
+
+
+def public_state(kind, l):
+    """What C18 observes of a learner (wrapped or bare) after every operation."""
+    return {"npoints": int(l.npoints), "pend": W.child_pending(kind, l), "data": W.child_data(kind, l),
+            "loss_r": safe_loss(l, True), "loss_e": safe_loss(l, False), "attrs": attr_view(kind, l)}
+
+
+def prefill(kind, learner, n):
+    """Points the learner is given BEFORE it is wrapped (the same for the bare twin)."""
+    for _ in range(n):
+        pts, _ = learner.ask(1)
+        for p in pts:
+            learner.tell(p, W.evaluate(kind, learner, p))
+
+
+def drive(spec, hist=None, rng=None, concrete=None, record=True, overwrites=True, is_donor=False):
+    """Run DataSaver(child) on a history, in lock-step with the bare twin (the same learner fed the picked
+    values).  Returns dict(steps, rec, ds, twin, errors, ...); steps = (op, out, obs, state, twin_out, twin_state)."""
     from adaptive import DataSaver
     kind, pname = spec["kind"], spec["picker"]
+    _SERIAL[0] += 1
+    base = os.path.join(work_dir(), f"ck{_SERIAL[0] % 64}")
+    for f in glob.glob(base + "_*.pickle"):      # checkpoints of an earlier case
+        os.unlink(f)
     np.random.seed(spec.get("npseed", 1))
     random.seed(spec.get("npseed", 1))
     child = W.make_child(kind, spec.get("koff", 0), spec.get("size", 40))
-    rec = W.Recorder(kind, child, 0) if record else None
+    twin = W.make_child(kind, spec.get("koff", 0), spec.get("size", 40))
+    if spec.get("prefill"):
+        prefill(kind, child, spec["prefill"])
+        prefill(kind, twin, spec["prefill"])
+    rec = W.Recorder(kind, child, 0, names=W.Recorder.NAMES + ("_set_data",), tolerant=True) if record else None
     picker = CountingPicker(make_picker(pname))
     ds = DataSaver(child, arg_picker=picker)
+    wside, tside = Side(spec, True, base), Side(spec, False, base)
     steps, errors, outstanding, told_keys = [], [], [], []
-    expected_extra = {}        # hashable point -> last full result (from scratch)
+    expected_extra = {}        # hashable point -> acceptable full results (from scratch)
     key_order = []
+    excused = set()            # keys whose point the wrapped learner lost through a bypassing inner load
+    slots = {}                 # checkpoint -> what the saver held when it was written
     tag = [100]
     stop = None
+    donor = None
+    loaded_extra = {}          # step index of a restore -> the extra_data of the loaded state, as the model's argument
+    stats = {"restores": 0, "restores_into_saver_holding_other_points": 0, "restores_learner_forgets_points": 0,
+             "restores_learner_keeps_points": 0, "steps_npoints_differs_from_len_extra_data": 0, "inner_ops": 0}
+
+    def extra_obs(saver):
+        pk = make_picker(pname)
+        return [(W.enc_point(kind, k), float(pk(v)), tag_of(pname, v)) for k, v in saver.extra_data.items()]
+    if spec.get("donor") and not is_donor:
+        dspec = dict(spec, **{k: v for k, v in spec["donor"].items() if k != "ops"})
+        dspec.pop("donor", None)
+        donor = drive(dspec, concrete=spec["donor"]["ops"], record=False, overwrites=overwrites, is_donor=True)
+        errors.extend((sig, "in the other run: " + msg) for sig, msg in donor["errors"])
+        try:
+            donor["ds"].save(wside.path("donor"))
+            donor["twin"].save(tside.path("donor"))
+            wside.donor, tside.donor = donor["ds"], donor["twin"]
+            slots["donor"] = {"expected": {k: list(v) for k, v in donor["expected_extra"].items()},
+                              "order": list(donor["key_order"]), "excused": set(donor["excused"]),
+                              "T": set(told_map(kind, donor["ds"].learner)), "extra_obs": extra_obs(donor["ds"])}
+        except Exception as e:
+            errors.append(("C18:persist_exception", f"saving the other run: {type(e).__name__}: {e}"))
+            donor = None
 
     retell_at = [None]       # index of the first re-tell the child ignored (F20 trigger), if any
+    drop_at = [None]         # index of the first load after which told points known to the learner have no result
 
     def items_of(op):
         if op[0] == "tell":
@@ -212,15 +433,19 @@ def drive(spec, hist=None, rng=None, concrete=None, record=True, overwrites=True
             stop = "unobservable"
 
     def _do(op, full):
-        nonlocal stop
+        nonlocal stop, key_order, expected_extra, excused
         ncalls = len(picker.calls)
         items = items_of(op)
-        cur = {W.hashable(kind, q): v for q, v in child.data.items()} if items else {}
-        out = apply_op(kind, ds, op, True, pname)
+        cur = told_map(kind, child) if items else {}
+        old_keys = list(key_order)
+        out = apply_op(kind, ds, op, True, pname, wside)
+        tout = apply_op(kind, twin, op, False, pname, tside)
+        T = set(told_map(kind, child))
+        judged_restore = False
         if items:
             results = [make_result(pname, y, t) for _, y, t in items]
             if out[0] == "none":
-                final = {W.hashable(kind, q): v for q, v in child.data.items()}
+                final = told_map(kind, child)
                 for (enc, y, t), r in zip(items, results):
                     hp = W.hashable(kind, dec_point(kind, child, enc))
                     before = cur.get(hp)
@@ -246,49 +471,138 @@ def drive(spec, hist=None, rng=None, concrete=None, record=True, overwrites=True
             outstanding.extend(out[3])
         if op[0] == "remove_unfinished":
             outstanding.clear()
-        # extra_data against the from-scratch expectation
-        extra_ok = False
         try:
             keys = [W.hashable(kind, k) for k in ds.extra_data.keys()]
         except Exception:
             keys = list(ds.extra_data.keys())
+        if op[0] == "save" and out[0] == "none":
+            slots[op[1]] = {"expected": {k: list(v) for k, v in expected_extra.items()}, "order": list(key_order),
+                            "excused": set(excused), "T": set(T), "extra_obs": extra_obs(ds)}
+        if op[0] in ("inner_load", "inner_tmap", "inner_tell") and out[0] == "none":
+            excused |= set(keys) - T
+            stats["inner_ops"] += 1
+        if op[0] == "restore" and out[0] == "none":
+            # the saver now holds the loaded state: full results for the loaded points, and -- when the wrapped
+            # learner's own _set_data merges instead of replacing -- still those of the points it keeps knowing
+            src = slots[op[1]]
+            loaded_extra[len(steps)] = src["extra_obs"]
+            stats["restores"] += 1
+            absent = [k for k in key_order if k not in src["expected"]]
+            stats["restores_into_saver_holding_other_points"] += bool(absent)
+            stats["restores_learner_forgets_points"] += any(k not in T for k in absent)
+            stats["restores_learner_keeps_points"] += any(k in T for k in absent)
+            new_expected = {k: list(v) for k, v in src["expected"].items()}
+            new_order = list(src["order"])
+            kept = []
+            for k in key_order:
+                if k in new_expected:
+                    new_expected[k] = new_expected[k] + [r for r in expected_extra[k] if r not in new_expected[k]]
+                elif k in T:
+                    kept.append(k)
+                    new_expected[k] = list(expected_extra[k])
+            new_excused = (excused | src["excused"]) & set(new_order + kept)
+            surplus = [k for k in keys if k not in new_expected]
+            missing = [k for k in new_order + kept if k not in keys]
+            judged_restore = True
+            if surplus and out[0] != "exc":
+                sig = "C18:extra_data_not_in_data" if any(k not in T for k in surplus) else "C18:extra_data_keys"
+                errors.append((sig, f"after {op[2]} of checkpoint {op[1]!r} into a DataSaver holding results for {old_keys[:5]} "
+                                    f"extra_data has key(s) {surplus[:4]} that belong neither to the loaded state "
+                                    f"{src['order'][:5]} nor to points the wrapped learner still knows "
+                                    f"(wrapped learner knows {len(T)} points, extra_data has {len(keys)} keys)"))
+            if missing:
+                if all(k in kept for k in missing):
+                    if drop_at[0] is None:
+                        drop_at[0] = len(steps)
+                    errors.append(("C18:load_drops_told_result",
+                                   f"after {op[2]} of checkpoint {op[1]!r} the wrapped learner still knows the told point(s) "
+                                   f"{missing[:4]} (its _set_data merges) but their full results are gone from extra_data "
+                                   f"(keys {keys[:6]})"))
+                else:
+                    errors.append(("C18:told_result_lost", f"after {op[2]} of checkpoint {op[1]!r} extra_data lacks the loaded "
+                                                           f"result(s) of {[k for k in missing if k not in kept][:4]}"))
+            # continue from what is actually there (order after a merge is not prescribed)
+            expected_extra = {k: v for k, v in new_expected.items()}
+            for k in surplus:
+                expected_extra[k] = [ds.extra_data[kk] for kk in ds.extra_data if W.hashable(kind, kk) == k]
+            for k in missing:
+                expected_extra.pop(k, None)
+            key_order = [k for k in keys if k in expected_extra]
+            excused = new_excused | ({k for k in surplus if k not in T})
+            told_keys[:] = [p for p in told_keys if W.hashable(kind, p) in T]
+            if kind in ("lnd", "int"):
+                outstanding.clear()
+        # extra_data against the from-scratch expectation
+        extra_ok = False
         lost = [hp for hp in key_order if hp not in keys]
-        if lost and out[0] != "exc":
+        stray = [k for k in keys if k not in T and k not in excused]
+        if judged_restore and (surplus or missing):
+            pass                                  # reported above
+        elif lost and out[0] != "exc":
             errors.append(("C18:told_result_lost", f"after {op[0]} the full result of told point(s) {lost[:4]} is no longer "
                                                    f"retrievable from extra_data (keys {keys[:6]})"))
         elif keys != key_order and out[0] != "exc":
             errors.append(("C18:extra_data_keys", f"extra_data keys {keys[:6]} != told points {key_order[:6]}"))
+        elif stray and out[0] != "exc":
+            errors.append(("C18:extra_data_not_in_data", f"after {op[0]} extra_data holds result(s) for {stray[:4]}, point(s) the "
+                                                         f"wrapped learner has no value for"))
         elif out[0] != "exc" and any(ds.extra_data[k] not in expected_extra[W.hashable(kind, k)] for k in ds.extra_data):
             errors.append(("C18:extra_data_values", "extra_data value is not the last full result told for the point"))
         else:
             extra_ok = True
-        o = st = None
-        if out[0] == "exc":
-            stop = "exception:" + out[1]
+        o = st = ts = None
+        if out[0] != "exc" and tout[0] != "exc":
+            # a learner that cannot be observed (loss() raises ...) is so with and without the wrapper
+            sx = tx = None
+            try:
+                st = public_state(kind, ds)
+            except Exception as e:
+                sx = type(e).__name__
+            try:
+                ts = public_state(kind, twin)
+            except Exception as e:
+                tx = type(e).__name__
+            if sx or tx:
+                out, tout = ("exc", "observing:" + str(sx)), ("exc", "observing:" + str(tx))
+        if out[0] == "exc" or tout[0] == "exc":
+            stop = "exception:" + (out[1] if out[0] == "exc" else tout[1])
         elif not extra_ok:
             stop = "extra_data-wrong"          # reported above; the model comparison needs well-formed extra_data
-            st = public_state(kind, ds)        # the twin comparison still runs on this step
-        else:
+        else:                                  # (the twin comparison still runs on this step)
             if rec is not None and full:
                 rec.mark_full()
-            st = public_state(kind, ds)
+            stats["steps_npoints_differs_from_len_extra_data"] += ts["npoints"] != len(keys)
             o = {"extra": [(W.enc_point(kind, k), float(make_picker(pname)(v)), tag_of(pname, v)) for k, v in ds.extra_data.items()],
                  "npoints": st["npoints"], "pend": st["pend"], "data": st["data"] if full else None,
                  "loss_r": st["loss_r"], "loss_e": st["loss_e"]}
-        steps.append((op, out, o, st))
+            if full:
+                bad = delegation_scan(ds)
+                for name in dir(twin):          # the bare twin is read the same way (lazy attributes)
+                    if not name.startswith("_") and name not in OWN_NAMES:
+                        _get(twin, name)
+                if bad:
+                    errors.append(("C18:delegation", f"after {op[0]}: attribute(s) of the wrapped learner differ when read through "
+                                                     f"the DataSaver: {bad[:3]}"))
+        steps.append((op, out, o, st, tout, ts))
 
-    def new_point(source):
+    def new_point(source, shuffle=True):
         """A point for a tell: (point, is_again) or None."""
         if source == "outstanding" and outstanding:
-            return outstanding.pop(rng.randrange(len(outstanding))), False
-        if source == "unsolicited" and kind in ("l1d", "seq", "avg"):
+            return outstanding.pop(rng.randrange(len(outstanding)) if shuffle else 0), False
+        if source == "unsolicited" and kind in FREE_KINDS:
             if kind == "l1d":
                 return round(rng.uniform(*child.bounds), 3), False
             if kind == "seq":
                 i = rng.randrange(len(child.sequence))
                 return (i, child.sequence[i]), False
+            if kind == "l2d":
+                return tuple(round(rng.uniform(*b), 3) for b in child.bounds), False
+            if kind == "avg1d":
+                xs = list(child.data)
+                x = rng.choice(xs) if xs and rng.random() < 0.5 else round(rng.uniform(*child.bounds), 3)
+                return (rng.randrange(6), x), False
             return int(child.npoints + len(child.pending_points) + rng.randrange(4)), False
-        if source == "again" and told_keys and kind in ("l1d", "seq", "avg"):
+        if source == "again" and told_keys and kind in FREE_KINDS:
             return rng.choice(told_keys), True
         return None
 
@@ -298,7 +612,7 @@ def drive(spec, hist=None, rng=None, concrete=None, record=True, overwrites=True
             if stop:
                 break
     else:
-        if kind == "avg":          # F11: AverageLearner.ask / loss(real=False) divide by npoints = 0
+        if kind == "avg" and not spec.get("prefill"):          # F11: AverageLearner.ask / loss(real=False) divide by npoints = 0
             tag[0] += 1
             told_keys.append(0)
             do(("tell", [0.0], W.evaluate(kind, child, 0), tag[0]))
@@ -308,24 +622,13 @@ def drive(spec, hist=None, rng=None, concrete=None, record=True, overwrites=True
             if k == "ask":
                 # LearnerND.ask(0) raises ValueError, AverageLearner.ask(0) ZeroDivisionError (quirks of the
                 # children, the same with and without the wrapper): keep only a few
-                do(("ask", max(a[1], 1) if kind in ("lnd", "avg") and rng.random() < 0.9 else a[1], a[2]), full)
+                do(("ask", max(a[1], 1) if kind in ("lnd", "avg", "avg1d") and rng.random() < 0.9 else a[1], a[2]), full)
             elif k == "tell":
-                p = None
-                if a[1] == "outstanding" and outstanding:
-                    p = outstanding.pop(rng.randrange(len(outstanding)) if a[2] else 0)
-                elif a[1] == "unsolicited" and kind in ("l1d", "seq", "avg"):
-                    if kind == "l1d":
-                        p = round(rng.uniform(*child.bounds), 3)
-                    elif kind == "seq":
-                        i = rng.randrange(len(child.sequence))
-                        p = (i, child.sequence[i])
-                    else:
-                        p = int(child.npoints + len(child.pending_points) + rng.randrange(4))
-                elif a[1] == "again" and told_keys and kind in ("l1d", "seq", "avg"):
-                    p = rng.choice(told_keys)
-                if p is not None:
+                got = new_point(a[1], a[2])
+                if got is not None:
+                    p, again = got
                     tag[0] += 1
-                    y = W.evaluate(kind, child, p) if a[1] != "again" else W.evaluate(kind, child, p) + 1.0
+                    y = W.evaluate(kind, child, p) + (1.0 if again else 0.0)
                     told_keys.append(p)
                     do(("tell", W.enc_point(kind, p), y, tag[0]), full)
             elif k == "tell_many":
@@ -347,40 +650,56 @@ def drive(spec, hist=None, rng=None, concrete=None, record=True, overwrites=True
             elif k == "tell_pending_told":
                 # a point whose result has already arrived is announced as pending (again): tolerated by
                 # Learner1D (no-op), AverageLearner and SequenceLearner (marked pending)
-                if kind in ("l1d", "seq", "avg") and told_keys:
+                if kind in FREE_KINDS and told_keys:
                     do(("tell_pending", W.enc_point(kind, rng.choice(told_keys))), full)
-            elif k == "tell_pending" and kind in ("l1d", "seq", "avg"):
-                if kind == "l1d":
-                    p = round(rng.uniform(*child.bounds), 3)
-                elif kind == "avg":
-                    p = int(child.npoints + len(child.pending_points) + rng.randrange(3))
-                else:
-                    i = rng.randrange(len(child.sequence))
-                    p = (i, child.sequence[i])
+            elif k == "tell_pending" and kind in FREE_KINDS:
+                p = new_point("unsolicited")[0]
                 hp = W.hashable(kind, p)
-                if hp not in {W.hashable(kind, q) for q in child.data} | {W.hashable(kind, q) for q in child.pending_points}:
+                if hp not in set(told_map(kind, child)) | {W.hashable(kind, q) for q in child.pending_points}:
                     do(("tell_pending", W.enc_point(kind, p)), full)
             elif k == "loss":
                 do(("loss", a[1]), full)
             elif k == "remove_unfinished" and kind != "lnd":       # F5
                 do(("remove_unfinished",), full)
+            elif k == "save":
+                do(("save", rng.randrange(3)), full)
+            elif k == "restore":
+                cands = sorted(slots, key=str)
+                if cands:
+                    slot = rng.choice(cands)
+                    how = rng.choice(RESTORE_HOWS + (["copy_live"] if slot == "donor" and spec.get("copy_live") else []))
+                    do(("restore", slot, how), True)
+            elif k == "inner_tell":
+                got = new_point(rng.choice(["outstanding", "unsolicited"]))
+                if got is not None:
+                    do(("inner_tell", W.enc_point(kind, got[0]), W.evaluate(kind, child, got[0])), full)
+            elif k == "inner_load":
+                if kind == "avg1d" and rng.random() < 0.5 and child.data:
+                    x = rng.choice(list(child.data))
+                    sds = rng.sample(range(8), rng.randint(1, 3))
+                    do(("inner_tmap", x, [[sd, W.evaluate(kind, child, (sd, x))] for sd in sds]), full)
+                elif slots:
+                    do(("inner_load", rng.choice(sorted(slots, key=str))), full)
             if stop:
                 break
     if rec is not None:
         rec.unwrap()
-    return {"steps": steps, "rec": rec, "ds": ds, "errors": errors, "stop": stop, "child": child,
-            "retell_at": retell_at[0]}
+    if donor is not None and not stop and spec.get("copy_live"):
+        # the other run was not touched by this one: it still holds exactly its own results
+        dk = [W.hashable(kind, q) for q in donor["ds"].extra_data]
+        if dk != donor["key_order"]:
+            errors.append(("C18:copy_from_shares_extra_data",
+                           f"the DataSaver this one copied from now has extra_data keys {dk[:6]}, it was told {donor['key_order'][:6]} "
+                           f"(its wrapped learner knows {sorted(told_map(kind, donor['ds'].learner))[:6]})"))
+    return {"steps": steps, "rec": rec, "ds": ds, "twin": twin, "errors": errors, "stop": stop, "child": child,
+            "retell_at": retell_at[0], "drop_at": drop_at[0], "expected_extra": expected_extra, "key_order": key_order,
+            "excused": excused, "loaded_extra": loaded_extra, "stats": stats}
 
 
 def twin_check(spec, res):
-    """Replay the concrete history on the bare learner fed the picked values and compare."""
-    kind, pname = spec["kind"], spec["picker"]
-    np.random.seed(spec.get("npseed", 1))
-    random.seed(spec.get("npseed", 1))
-    twin = W.make_child(kind, spec.get("koff", 0), spec.get("size", 40))
+    """Compare the run of the DataSaver with the lock-step run of the bare learner fed the picked values."""
     errs = []
-    for j, (op, out, o, st) in enumerate(res["steps"]):
-        tout = apply_op(kind, twin, op, False, pname)
+    for j, (op, out, o, st, tout, ts) in enumerate(res["steps"]):
         if out[0] != tout[0]:
             errs.append(("C18:twin_outcome", f"step {j} {op[0]}: wrapped -> {out[:2]}, bare learner -> {tout[:2]}"))
             break
@@ -394,15 +713,17 @@ def twin_check(spec, res):
         if out[0] == "loss" and not feq(out[1], tout[1]):
             errs.append(("C18:twin_loss", f"step {j}: loss(real={op[1]}) wrapped {out[1]} != bare {tout[1]}"))
             break
-        ts = public_state(kind, twin)
-        for key, sig in (("data", "C18:twin_data"), ("pend", "C18:twin_pending"), ("npoints", "C18:twin_data")):
+        for key, sig in (("data", "C18:twin_data"), ("pend", "C18:twin_pending"), ("npoints", "C18:twin_npoints")):
             if st[key] != ts[key]:
                 errs.append((sig, f"step {j} after {op[0]}: {key} wrapped {str(st[key])[:80]} != bare {str(ts[key])[:80]}"))
         if not feq(st["loss_r"], ts["loss_r"]) or not feq(st["loss_e"], ts["loss_e"]):
             errs.append(("C18:twin_loss", f"step {j} after {op[0]}: loss wrapped ({st['loss_r']},{st['loss_e']}) != bare ({ts['loss_r']},{ts['loss_e']})"))
+        for name, v in st["attrs"].items():
+            if v != ts["attrs"][name]:
+                errs.append(("C18:twin_attribute", f"step {j} after {op[0]}: {name} wrapped {str(v)[:80]} != bare {str(ts['attrs'][name])[:80]}"))
         if errs:
             break
-    return errs, twin
+    return errs, res["twin"]
 
 
 def persistence_check(spec, res, workdir, k):
@@ -415,11 +736,19 @@ def persistence_check(spec, res, workdir, k):
     want_extra = list(ds.extra_data.items())
     want_data = W.child_data(kind, ds)
 
-    def same(ds2, how):
+    twin = res["twin"]
+
+    def same(ds2, how, ref=None):
         if list(ds2.extra_data.items()) != want_extra:
             errs.append(("C18:persist_extra_data", f"extra_data differs after {how}"))
-        if W.child_data(kind, ds2) != want_data:
+        # AverageLearner1D recomputes its means when it loads (another order of additions): the reference is
+        # the bare twin put through the same round trip
+        if W.child_data(kind, ds2) != (want_data if ref is None or kind != "avg1d" else W.child_data(kind, ref)):
             errs.append(("C18:persist_data", f"data differs after {how}"))
+        if ref is not None and (W.child_data(kind, ds2) != W.child_data(kind, ref) or int(ds2.npoints) != int(ref.npoints)
+                                or W.child_pending(kind, ds2) != W.child_pending(kind, ref)
+                                or obs_loss(ds2, True) != obs_loss(ref, True) or obs_loss(ds2, False) != obs_loss(ref, False)):
+            errs.append(("C18:persist_twin", f"after {how} the DataSaver differs from the bare learner put through the same round trip"))
         for x, r in want_extra[:5]:
             if ds2.extra_data[x] != r:
                 errs.append(("C18:persist_extra_data", f"extra_data[{x!r}] not retrievable after {how}"))
@@ -429,18 +758,21 @@ def persistence_check(spec, res, workdir, k):
     try:
         fname = os.path.join(workdir, f"ds_{k % 8}.pickle")
         ds.save(fname)
-        ds2 = fresh()
+        twin.save(fname + ".twin")
+        ds2, ref2 = fresh(), fresh().learner
         ds2.load(fname)
-        same(ds2, "save/load")
-        ds3 = fresh()
-        ds3._set_data(ds._get_data())
-        same(ds3, "_set_data(_get_data())")
+        ref2.load(fname + ".twin")
+        same(ds2, "save/load", ref2)
+        ds3, ref3 = fresh(), fresh().learner
+        ds3._set_data(copy.deepcopy(ds._get_data()) if kind != "int" else ds._get_data())
+        ref3._set_data(copy.deepcopy(twin._get_data()) if kind != "int" else twin._get_data())
+        same(ds3, "_set_data(_get_data())", ref3)
         if kind != "int":
             real_picker = ds.arg_picker
-            ds.arg_picker = real_picker.f          # the counting wrapper is harness-side
+            ds.arg_picker = getattr(real_picker, "f", real_picker)          # the counting wrapper is harness-side
             try:
-                blob = pickle.dumps(ds) if pname == "itemgetter" and kind != "lnd" else cloudpickle.dumps(ds)
-                same(pickle.loads(blob), "pickle")
+                blob = pickle.dumps(ds) if pname == "itemgetter" and kind not in ("lnd", "l2d", "avg1d") else cloudpickle.dumps(ds)
+                same(pickle.loads(blob), "pickle", pickle.loads(cloudpickle.dumps(twin)))
             finally:
                 ds.arg_picker = real_picker
     except Exception as e:
@@ -451,17 +783,25 @@ def persistence_check(spec, res, workdir, k):
 # ----------------------------------------------------------------------
 def op_term(op):
     k = op[0]
+    if k == "restore":                  # op[3]: the extra_data of the state that is loaded
+        return C.app("XSetData", C.lst(C.pair(W.pt_term(p), C.pair(C.flt(y), C.Z(t))) for p, y, t in op[3]))
+    if k == "inner_tell":
+        return C.app("XInner", C.app("CTell", W.pt_term(op[1]), C.flt(op[2])))
+    if k == "inner_load":
+        return "(XInner CSetData)"
     if k == "ask":
-        return C.app("@Ask OL R", C.nat(op[1]), C.bool_(op[2]))
-    if k == "tell":
-        return C.app("@Tell OL R", W.pt_term(op[1]), C.pair(C.flt(op[2]), C.Z(op[3])))
-    if k == "tell_many":
-        return C.app("@TellMany OL R", C.lst(C.pair(W.pt_term(it[0]), C.pair(C.flt(it[1]), C.Z(it[2]))) for it in op[1]))
-    if k == "tell_pending":
-        return C.app("@TellPending OL R", W.pt_term(op[1]))
-    if k == "loss":
-        return C.app("@Loss OL R", C.bool_(op[1]))
-    return "(@RemoveUnfinished OL R)"
+        t = C.app("@Ask OL R", C.nat(op[1]), C.bool_(op[2]))
+    elif k == "tell":
+        t = C.app("@Tell OL R", W.pt_term(op[1]), C.pair(C.flt(op[2]), C.Z(op[3])))
+    elif k == "tell_many":
+        t = C.app("@TellMany OL R", C.lst(C.pair(W.pt_term(it[0]), C.pair(C.flt(it[1]), C.Z(it[2]))) for it in op[1]))
+    elif k == "tell_pending":
+        t = C.app("@TellPending OL R", W.pt_term(op[1]))
+    elif k == "loss":
+        t = C.app("@Loss OL R", C.bool_(op[1]))
+    else:
+        t = "(@RemoveUnfinished OL R)"
+    return C.app("XOp", t)
 
 
 def out_term(o):
@@ -480,21 +820,28 @@ def obs_term(o):
                  C.flt(o["loss_r"]), C.flt(o["loss_e"]), "false")
 
 
-def coq_ops(spec, steps):
-    """Ops as the model sees them: the Tell carries (picked value, tag)."""
+def coq_ops(spec, res, steps):
+    """Ops as the model sees them: the Tell carries (picked value, tag); a load carries the loaded extra_data;
+    writing a checkpoint is not a state change."""
     pk = make_picker(spec["picker"])
     out = []
-    for op, o, ob, _ in steps:
+    for j, (op, o, ob, _, _, _) in enumerate(steps):
         if o[0] == "exc":
             break
         if ob is None:
             break                      # extra_data was malformed here (reported by the oracle)
+        if op[0] == "inner_tmap":
+            break                      # tell_many_at_point on the wrapped learner: not a call the oracle child records
+        if op[0] == "save":
+            continue
         if op[0] == "tell":
             r = make_result(spec["picker"], op[2], op[3])
             op = ("tell", op[1], float(pk(r)), tag_of(spec["picker"], r))
         elif op[0] == "tell_many":
             rs = [make_result(spec["picker"], it[1], it[2]) for it in op[1]]
             op = ("tell_many", [[it[0], float(pk(r)), tag_of(spec["picker"], r)] for it, r in zip(op[1], rs)])
+        elif op[0] == "restore":
+            op = tuple(op) + (res["loaded_extra"][j],)
         out.append((op, o, ob))
     return out
 
@@ -503,15 +850,17 @@ def case_term(spec, res, overwrites=True):
     steps = res["steps"]
     if not overwrites and res.get("retell_at") is not None:
         steps = steps[:res["retell_at"]]          # a repaired F20: the model (code as it was) is not compared from here on
+    if res.get("drop_at") is not None:
+        steps = steps[:res["drop_at"]]            # results dropped by a load (reported by the oracle): likewise
     return C.pair(W.child_term(res["rec"]),
-                  C.lst((C.tup(op_term(op), out_term(o), C.opt(ob, obs_term)) for op, o, ob in coq_ops(spec, steps)),
+                  C.lst((C.tup(op_term(op), out_term(o), C.opt(ob, obs_term)) for op, o, ob in coq_ops(spec, res, steps)),
                         sep=";\n  "))
 
 
 def nontrivial(steps):
     retold = ooo = pend = False
     told, asked = set(), []
-    for op, out, o, _ in steps:
+    for op, out, o, _, _, _ in steps:
         if op[0] == "ask" and out[0] == "ask" and op[2]:
             asked += [tuple(p) for p in out[1]]
         elif op[0] in ("tell", "tell_many"):
@@ -536,6 +885,8 @@ def run(chk: Check) -> int:
     hist_ops, kinds, stops, sizes = {}, {}, {}, {}
     seen = set()
     persisted = 0
+    _WORK[0] = str(chk.work)
+    pstats = {}
 
     def report(spec, ops, errs):
         for sig, msg in errs:
@@ -558,6 +909,10 @@ def run(chk: Check) -> int:
         sizes[bkt] = sizes.get(bkt, 0) + 1
         if res["stop"]:
             stops[res["stop"]] = stops.get(res["stop"], 0) + 1
+        for key, v in res["stats"].items():
+            pstats[key] = pstats.get(key, 0) + int(v)
+        pstats["cases_wrapped_learner_held_data_before"] = pstats.get("cases_wrapped_learner_held_data_before", 0) + bool(spec.get("prefill"))
+        pstats["cases_with_another_run"] = pstats.get("cases_with_another_run", 0) + bool(spec.get("donor"))
         if len(steps) > 6:
             chk.sample({"child": spec["kind"], "picker": spec["picker"], "ops": ops[:10]})
         errs = list(res["errors"])
@@ -595,10 +950,19 @@ def run(chk: Check) -> int:
         add(d["spec"], drive(d["spec"], concrete=d["ops"], overwrites=overwrites), "corpus/" + f.name, j)
     for k in range(ncases):
         rng = chk.rng("case", k)
-        kind = KINDS[k % len(KINDS)] if k < 15 else rng.choice(KINDS)
-        spec = {"kind": kind, "picker": PICKERS[(k // len(KINDS)) % 3] if k < 15 else rng.choice(PICKERS),
+        kind = KINDS[k % len(KINDS)] if k < 21 else rng.choice(KINDS)
+        spec = {"kind": kind, "picker": PICKERS[(k // len(KINDS)) % 3] if k < 21 else rng.choice(PICKERS),
                 "npseed": rng.randrange(10 ** 6), "koff": rng.randrange(8), "size": rng.choice([4, 12, 40])}
-        ml = maxlen if kind not in ("lnd", "int") else min(maxlen, 20)
+        ml = maxlen if kind not in ("lnd", "int", "l2d") else min(maxlen, 20)
+        if rng.random() < 0.3:           # the learner already holds data when it is wrapped
+            spec["prefill"] = rng.randint(1, 6)
+        if rng.random() < 0.35:          # another run of the same learner, to be loaded / copied into this one
+            dspec = dict(spec, npseed=rng.randrange(10 ** 6), prefill=rng.choice([0, 0, 3]))
+            dres = drive(dspec, gen_history(rng, kind, min(ml, 14), persist=False), rng, record=False, overwrites=overwrites,
+                         is_donor=True)
+            spec["donor"] = {"npseed": dspec["npseed"], "prefill": dspec["prefill"], "ops": [list(st[0]) for st in dres["steps"]]}
+            if COPY_LIVE and rng.random() < 0.5:
+                spec["copy_live"] = True
         res = drive(spec, gen_history(rng, kind, ml), rng, overwrites=overwrites)
         add(spec, res, f"seed{chk.seed}/{k}", k)
         if len(cases) >= 1500:
@@ -620,18 +984,34 @@ def run(chk: Check) -> int:
                         add(spec, res, f"exhaustive/{kind}/{pname}/{exhaustive}", exhaustive)
                         exhaustive += 1
                 flush(f"exh_{kind}_{pname}")
+        # every word of length <= 4 of tells, checkpoints, loads and inner tells, every wrapped learner type
+        alphabet2 = [("ask", 1, True), ("tell", "outstanding", False), ("tell", "unsolicited", False), ("save",), ("restore",),
+                     ("inner_tell",)]
+        for kind in KINDS:
+            for L in range(1, 5):
+                for word in itertools.product(alphabet2, repeat=L):
+                    if ("restore",) not in word or ("save",) not in word:
+                        continue
+                    spec = {"kind": kind, "picker": "itemgetter", "npseed": 1, "koff": 1, "size": 40, "prefill": exhaustive % 2}
+                    res = drive(spec, warm + list(word), random.Random(exhaustive), overwrites=overwrites)
+                    add(spec, res, f"exhaustive2/{kind}/{exhaustive}", exhaustive)
+                    exhaustive += 1
+            flush(f"exh2_{kind}")
     chk.extra.update({"op_histogram": hist_ops, "child_picker_histogram": kinds, "length_histogram": sizes,
                       "histories_stopped": stops, "persistence_round_trips": persisted,
                       "legal_histories_per_coq": totals["legal"], "cases_compared_in_coq": totals["cases"],
+                      "persistence_into_holding_savers": pstats,
                       "mismatches": totals["mism"], "exhaustive_small_scope_cases": exhaustive, "retell_replaces_extra_data": overwrites, "exhaustive": False})
     chk.log(f"correspondence: {totals['cases']} cases, {totals['mism']} mismatches, {totals['legal']} legal; oracle signatures {sorted(seen)}")
     return chk.finish(
-        rule="histories generated by driving the real DataSaver over Learner1D / LearnerND / SequenceLearner / AverageLearner / "
-             "IntegratorLearner with three pickers (operator.itemgetter, a lambda on dict results, identity): asks (committing and not), "
+        rule="histories generated by driving the real DataSaver over Learner1D / Learner2D / LearnerND / SequenceLearner / "
+             "AverageLearner / AverageLearner1D / IntegratorLearner (30 % of them already holding data when wrapped) with three pickers (operator.itemgetter, a lambda on dict results, identity): asks (committing and not), "
              "out-of-order, unsolicited and repeated tells of full results, tell_many batches of 0-5 (lists, tuples and one-shot iterables: "
              "generator, map, zip-derived, iter; mixed new/known points), tell_pending of new and of already told points, loss(real), "
-             "remove_unfinished; each history is "
-             "replayed on the bare learner fed the picked values (twin) and ends with save/load, pickle and _get_data/_set_data round "
+             "remove_unfinished, checkpoints (save) and load / _set_data / copy_from of an earlier checkpoint or of another run INTO "
+             "the saver as it is, tells and loads on the wrapped learner behind the saver's back; each history is "
+             "run in lock-step on the bare learner fed the picked values (twin; every public observable compared after every "
+             "operation) and ends with save/load, pickle and _get_data/_set_data round "
              "trips; non-trivial = an out-of-order tell and (a point told twice or pending points marked/discarded); distinct by "
              "(child, picker, op list)",
         assumptions=["hand-written model Model/DataSaver.v tied to the code by the sampled correspondence only",
@@ -646,7 +1026,7 @@ def replay(doc) -> int:
     items = doc.get("failing_inputs", []) + [b for b in doc.get("no_longer_checks", []) if isinstance(b.get("detail"), dict)]
     for f in items:
         r = f.get("replay") or f.get("detail")
-        res = drive(r["spec"], concrete=r["ops"])
+        res = drive(r["spec"], concrete=r["ops"], overwrites=probe_retell_overwrites())
         errs = res["errors"] + twin_check(r["spec"], res)[0]
         print("replayed", r["spec"], len(res["steps"]), "ops ->", errs[:3] or "oracle silent")
         bad += bool(errs)
